@@ -11,6 +11,8 @@ import PM.TypePlan
 import Props.C14
 import PM.KeptChildren
 import Proofs.TypePlan
+import Proofs.MarkTotal
+import Props.C01
 namespace PM.C13
 open PM
 
@@ -892,5 +894,244 @@ example (keep sp : Marks) :
     nlNodes keep sp [97, 13, 10, 98, 10] =
       [.text [97] keep, .text [32] sp, .text [98] keep, .text [32] sp] := by
   simp [nlNodes]
+
+
+/-! ### the range planners never fail on valid documents
+
+  `Transform.add_mark(from, to, mark)` / `Transform.remove_mark(from, to, …)` collect their steps on
+  the document they start from and then apply them one after the other, each to the document the
+  previous step left.  On a valid, normal-form document with `from ≤ to ≤ content size`, both pair-aligned
+  (not between the two halves of a surrogate pair), every collected step applies.
+
+  Hypotheses (all decidable except `TextLoop`, a property of the schema):
+  * `TextLoop S` — a text child can always be followed by another one; needed by every single mark step
+    (`addMark_applies`: a partly re-marked text node becomes up to three text nodes);
+  * `IsElem`, `Valid`, `fnorm` — a valid document as the library builds it;
+  * `f ≤ t`: needed (`total_needs_order`; the code raises `TransformError: Replaced range ends before
+    it starts` for `add_mark(5, 2, …)` over a text spanning both);
+  * `t ≤ size`: needed (`planAddMark` is the `IndexError` of `nodes_between` otherwise);
+  * `alignedAt … f`, `alignedAt … t`: needed by the single step already (`TextNode.cut` inside a pair
+    raises `UnicodeDecodeError`);
+  * `pairClosedKids` — no text node ends in a high surrogate.  **Needed in the model**
+    (`total_needs_pairClosed`): a text node ending in a lone high surrogate followed by one starting with
+    a lone low surrogate and differently marked is a valid normal-form model document, the boundary
+    between them is pair-aligned, and a first step that makes the two mark sets equal merges the two nodes —
+    after which a later planned step that ends at the old boundary cuts *inside* the new pair and fails.
+    In the code the hypothesis always holds: `TextNode.__init__`/`node_size` run
+    `text.encode("utf-16-le")`, which raises `UnicodeEncodeError` on a lone surrogate, so no such text
+    node exists.  (The counterexample uses a marked inline node *with content*; whether the hypothesis
+    can be dropped for documents without such nodes is open — the proof here does not distinguish.) -/
+
+/-- **a list of range mark steps applies**: on a valid, normal-form document, if every step of the list
+    is an add-mark or remove-mark step over an ordered, in-range, pair-aligned range *of that document*,
+    then applying the list in order (each step to the result of the previous one) goes through, and the
+    result is valid, in normal form, and has the same structure and text (token shapes). -/
+theorem stepAll_total (S : Schema) (hts : TextLoop S) (tr : Tr) (steps : List Step)
+    (hdoc : C01.IsElem tr.doc) (hv : C01.Valid S tr.doc) (hn : fnorm tr.doc.kids = true)
+    (hc : pairClosedKids tr.doc.kids = true)
+    (hs : ∀ s ∈ steps, ∃ a b x, (s = .addMark a b x ∨ s = .removeMark a b x) ∧
+      a ≤ b ∧ b ≤ fsize tr.doc.kids ∧ alignedAt tr.doc.kids a = true ∧ alignedAt tr.doc.kids b = true) :
+    ∃ tr', tr.stepAll S steps = .ok tr' ∧ C01.Valid S tr'.doc ∧ fnorm tr'.doc.kids = true ∧
+      (ftoks tr'.doc.kids).map Tok.shape = (ftoks tr.doc.kids).map Tok.shape := by
+  obtain ⟨tr', h, hI⟩ := PM.stepAll_total S hts tr.doc.kids steps tr (DocInv.init S tr.doc hdoc hv hn)
+    (fun s hs' => by
+      obtain ⟨a, b, x, hk, hab, hb, h1, h2⟩ := hs s hs'
+      exact GoodStep.to_unit _ _ s hc (Nat.le_refl _) ⟨a, b, x, hk, hab, hb, h1, h2⟩)
+  exact ⟨tr', h, hI.valid, hI.norm, hI.shape⟩
+
+/-- **`Transform.add_mark` never fails on a valid document** (in-range, ordered, pair-aligned ends) -/
+theorem addMark_total (S : Schema) (hts : TextLoop S) (tr : Tr) (f t : Nat) (m : Mark)
+    (hdoc : C01.IsElem tr.doc) (hv : C01.Valid S tr.doc) (hn : fnorm tr.doc.kids = true)
+    (hc : pairClosedKids tr.doc.kids = true) (hft : f ≤ t) (ht : t ≤ fsize tr.doc.kids)
+    (haf : alignedAt tr.doc.kids f = true) (hat : alignedAt tr.doc.kids t = true) :
+    ∃ tr', tr.addMark S f t m = .ok tr' := by
+  obtain ⟨tr', h, _⟩ := addMark_total_inv S hts tr f t m hdoc hv hn hc hft ht haf hat
+  exact ⟨tr', h⟩
+
+/-- **`Transform.remove_mark` never fails on a valid document** (mark, mark type or all marks) -/
+theorem removeMark_total (S : Schema) (hts : TextLoop S) (tr : Tr) (f t : Nat) (sel : MarkSel)
+    (hdoc : C01.IsElem tr.doc) (hv : C01.Valid S tr.doc) (hn : fnorm tr.doc.kids = true)
+    (hc : pairClosedKids tr.doc.kids = true) (hft : f ≤ t) (ht : t ≤ fsize tr.doc.kids)
+    (haf : alignedAt tr.doc.kids f = true) (hat : alignedAt tr.doc.kids t = true) :
+    ∃ tr', tr.removeMark S f t sel = .ok tr' := by
+  obtain ⟨tr', h, _⟩ := removeMark_total_inv S hts tr f t sel hdoc hv hn hc hft ht haf hat
+  exact ⟨tr', h⟩
+
+/-- **`Transform.add_mark`, unconditionally**: under the hypotheses of `addMark_total` the operation
+    returns, the result is a valid normal-form document, and it has the effect `planAddMark_effect`
+    states (no success hypothesis left) -/
+theorem addMark_total_effect (S : Schema) (hts : TextLoop S) (tr : Tr) (f t : Nat) (m : Mark)
+    (hdoc : C01.IsElem tr.doc) (hv : C01.Valid S tr.doc) (hn : fnorm tr.doc.kids = true)
+    (hc : pairClosedKids tr.doc.kids = true) (hft : f ≤ t) (ht : t ≤ fsize tr.doc.kids)
+    (haf : alignedAt tr.doc.kids f = true) (hat : alignedAt tr.doc.kids t = true) :
+    ∃ tr', tr.addMark S f t m = .ok tr' ∧ C01.Valid S tr'.doc ∧ fnorm tr'.doc.kids = true ∧
+      (let old := ftoks tr.doc.kids
+       let new := ftoks tr'.doc.kids
+       let qualifies := fun i => f ≤ i ∧ i < t ∧ isAtomTok S (tokAt old i) = true ∧
+         (S.nodeType (ctxAt (S.tyOf tr.doc) old i)).allowsMarkType m.ty = true
+       tr'.steps = tr.steps ++ planAddMarkSteps S tr.doc f t m ∧
+       new.length = old.length ∧
+       ∀ i, i < old.length →
+         (tokAt new i).shape = (tokAt old i).shape ∧
+         (qualifies i → m ∈ (tokAt new i).marks ∨
+           ∃ o ∈ (tokAt old i).marks, S.excludes o.ty m.ty = true ∧ S.excludes m.ty o.ty = false) ∧
+         (m ∈ (tokAt new i).marks → m ∈ (tokAt old i).marks ∨ qualifies i) ∧
+         (∀ x, x ≠ m →
+           (x ∈ (tokAt new i).marks → x ∈ (tokAt old i).marks) ∧
+           (x ∈ (tokAt old i).marks → S.excludes m.ty x.ty = false → x ∈ (tokAt new i).marks)) ∧
+         (¬ (f ≤ i ∧ i < t) → tokAt new i = tokAt old i)) := by
+  obtain ⟨tr', h, hI⟩ := addMark_total_inv S hts tr f t m hdoc hv hn hc hft ht haf hat
+  exact ⟨tr', h, hI.valid, hI.norm, planAddMark_effect S tr tr' f t m h⟩
+
+/-- **`Transform.remove_mark`, unconditionally**: the operation returns, the result is a valid
+    normal-form document, and it has the effect `planRemoveMark_effect` states -/
+theorem removeMark_total_effect (S : Schema) (hts : TextLoop S) (tr : Tr) (f t : Nat) (sel : MarkSel)
+    (hdoc : C01.IsElem tr.doc) (hv : C01.Valid S tr.doc) (hn : fnorm tr.doc.kids = true)
+    (hc : pairClosedKids tr.doc.kids = true) (hft : f ≤ t) (ht : t ≤ fsize tr.doc.kids)
+    (haf : alignedAt tr.doc.kids f = true) (hat : alignedAt tr.doc.kids t = true) :
+    ∃ tr', tr.removeMark S f t sel = .ok tr' ∧ C01.Valid S tr'.doc ∧ fnorm tr'.doc.kids = true ∧
+      (let old := ftoks tr.doc.kids
+       let new := ftoks tr'.doc.kids
+       tr'.steps = tr.steps ++ planRemoveMarkSteps S tr.doc f t sel ∧
+       new.length = old.length ∧
+       ∀ i, i < old.length →
+         (tokAt new i).shape = (tokAt old i).shape ∧
+         ((f ≤ i ∧ i < t ∧ isInlineTok S (tokAt old i) = true) →
+           (tokAt new i).marks = (tokAt old i).marks.filter (fun x => !sel.matches x)) ∧
+         (¬ (f ≤ i ∧ i < t ∧ isInlineTok S (tokAt old i) = true) → tokAt new i = tokAt old i)) := by
+  obtain ⟨tr', h, hI⟩ := removeMark_total_inv S hts tr f t sel hdoc hv hn hc hft ht haf hat
+  exact ⟨tr', h, hI.valid, hI.norm, planRemoveMark_effect S tr tr' f t sel h⟩
+
+/-! #### the hypotheses are satisfiable, and needed
+
+  Schema `doc: para*`, `para: (text | span)*`, `span: text*` (an inline node with content), one mark `u`
+  allowed everywhere. -/
+section Necessity
+private def spanS : Schema :=
+  { nodes := #[
+      { name := "doc", isText := false, isInline := false, isLeaf := false, isAtom := false,
+        inlineContent := false, isolating := false, defining := false, code := false,
+        dfa := #[⟨true, [(1, 0)]⟩], markSet := some [], attrs := [] },
+      { name := "para", isText := false, isInline := false, isLeaf := false, isAtom := false,
+        inlineContent := true, isolating := false, defining := false, code := false,
+        dfa := #[⟨true, [(2, 0), (3, 0)]⟩], markSet := none, attrs := [] },
+      { name := "text", isText := true, isInline := true, isLeaf := true, isAtom := true,
+        inlineContent := false, isolating := false, defining := false, code := false,
+        dfa := #[⟨true, []⟩], markSet := some [], attrs := [] },
+      { name := "span", isText := false, isInline := true, isLeaf := false, isAtom := false,
+        inlineContent := true, isolating := false, defining := false, code := false,
+        dfa := #[⟨true, [(2, 0)]⟩], markSet := none, attrs := [] }],
+    marks := #[{ name := "u", excluded := [0], inclusive := true, attrs := [] }], top := 0, textTy := 2 }
+
+private def u : Mark := ⟨0, []⟩
+
+private theorem spanS_loop : TextLoop spanS := by
+  intro t q q1 h
+  match t, q with
+  | 0, 0 => simp [Schema.dfa, Schema.nodeType, spanS, Dfa.matchType, Dfa.edgesOf] at h
+  | 1, 0 =>
+    have : q1 = 0 := by
+      simp [Schema.dfa, Schema.nodeType, spanS, Dfa.matchType, Dfa.edgesOf] at h; omega
+    subst this; exact h
+  | 2, 0 => simp [Schema.dfa, Schema.nodeType, spanS, Dfa.matchType, Dfa.edgesOf] at h
+  | 3, 0 =>
+    have : q1 = 0 := by
+      simp [Schema.dfa, Schema.nodeType, spanS, Dfa.matchType, Dfa.edgesOf] at h; omega
+    subst this; exact h
+  | 0, q + 1 => simp [Schema.dfa, Schema.nodeType, spanS, Dfa.matchType, Dfa.edgesOf] at h
+  | 1, q + 1 => simp [Schema.dfa, Schema.nodeType, spanS, Dfa.matchType, Dfa.edgesOf] at h
+  | 2, q + 1 => simp [Schema.dfa, Schema.nodeType, spanS, Dfa.matchType, Dfa.edgesOf] at h
+  | 3, q + 1 => simp [Schema.dfa, Schema.nodeType, spanS, Dfa.matchType, Dfa.edgesOf] at h
+  | t + 4, q =>
+    have : (spanS.dfa (t + 4)) = #[] := by
+      simp [Schema.dfa, Schema.nodeType, spanS]
+      rfl
+    rw [this] at h
+    simp [Dfa.matchType, Dfa.edgesOf] at h
+
+/-- `doc(p(span[u]("a", "b"[u])))`: `remove_mark(0, 6, u)` plans `RemoveMarkStep(1, 5, u)` (the span;
+    the entry is not extended by the unmarked `"a"`) and `RemoveMarkStep(3, 4, u)` (the `"b"`); the first
+    step already unmarks `"b"` and merges it with `"a"`, so the second one ends up ranging over the second
+    half of the merged text node -/
+private def okDoc : Node :=
+  .elem 0 [] [] [.elem 1 [] [] [.elem 3 [] [u] [.text [97] [], .text [98] [u]]]]
+
+/-- **the hypotheses are satisfiable** by a document on which the planned steps interact (two steps, a
+    merge of text nodes between them): the operation returns -/
+example : ∃ tr', (Tr.init okDoc).removeMark spanS 0 6 (.exact u) = .ok tr' :=
+  removeMark_total spanS spanS_loop (Tr.init okDoc) 0 6 (.exact u) rfl rfl rfl rfl (by omega) (by decide)
+    (alignedAt_zero _) (alignedAt_fsize okDoc.kids)
+
+example : ∃ tr', (Tr.init okDoc).addMark spanS 2 4 u = .ok tr' :=
+  addMark_total spanS spanS_loop (Tr.init okDoc) 2 4 u rfl rfl rfl rfl (by omega) (by decide)
+    (by simp [okDoc, Tr.init, Node.kids, alignedAt]) (by simp [okDoc, Tr.init, Node.kids, alignedAt])
+
+/-- the same document with the two halves of a surrogate pair for `"a"` and `"b"` (two lone surrogates,
+    marked differently) -/
+private def splitDoc : Node :=
+  .elem 0 [] [] [.elem 1 [] [] [.elem 3 [] [u] [.text [0xD83D] [], .text [0xDE00] [u]]]]
+
+private def mergedDoc : Node :=
+  .elem 0 [] [] [.elem 1 [] [] [.elem 3 [] [] [.text [0xD83D, 0xDE00] []]]]
+
+private theorem split_plan :
+    planRemoveMarkSteps spanS splitDoc 0 6 (.exact u) = [.removeMark 1 5 u, .removeMark 3 4 u] := by
+  simp [planRemoveMarkSteps, Schema.docVisits, nodesBetweenP_cons, nodesBetweenP, splitDoc, Node.kids,
+    Schema.tyOf, Node.tyOr, fsize, Node.size, removeMarkVisit, Schema.nodeInline, Schema.nodeType, spanS,
+    MarkSel.toRemove, Mark.isInSet, removeMarkStyle, updLast, Node.marks, u]
+
+private theorem split_step1 : spanS.apply (.removeMark 1 5 u) splitDoc = .ok mergedDoc := by
+  have hin : (spanS.nodeType 3).isInline = true := rfl
+  have hv : spanS.validContent 1 [Node.elem 3 [] [] [Node.text [55357, 56832] []]] = true := by rfl
+  simp [Schema.apply, splitDoc, mergedDoc, Node.slice, Node.kids, sliceKids, inRange, fsize, Node.size,
+    sliceScan, sliceHere, fcut, depthAt, Schema.fromReplace, Schema.replace, replaceKids, removeMarkKids,
+    removeMarkNode, fromArray, addNodes, addNode, Slice.wf, spineL, spineR, outer, atLevel, fappend,
+    Except.map, Mark.removeFromSet, u, hin, hv]
+
+private theorem split_step2 : spanS.apply (.removeMark 3 4 u) mergedDoc = .error .valueError := by
+  simp [Schema.apply, mergedDoc, Node.slice, Node.kids, sliceKids, inRange, fsize, Node.size, sliceScan,
+    sliceHere, fcut, fcutLoop, cutText, splitOk, isHigh, isLow]
+
+/-- **`pairClosedKids` is needed** (in the model): every other hypothesis of `removeMark_total` holds for
+    `splitDoc` and the range `0 … 6`, and the operation fails — its second step cuts the surrogate pair the
+    first step has put together.  (Not reachable in the code: a `TextNode` with a lone surrogate cannot be
+    built, `text.encode("utf-16-le")` raises.) -/
+theorem total_needs_pairClosed :
+    TextLoop spanS ∧ C01.IsElem splitDoc ∧ C01.Valid spanS splitDoc ∧ fnorm splitDoc.kids = true ∧
+    0 ≤ 6 ∧ 6 ≤ fsize splitDoc.kids ∧ alignedAt splitDoc.kids 0 = true ∧ alignedAt splitDoc.kids 6 = true ∧
+    pairClosedKids splitDoc.kids = false ∧
+    (Tr.init splitDoc).removeMark spanS 0 6 (.exact u) = .error .valueError := by
+  refine ⟨spanS_loop, rfl, rfl, rfl, by omega, by decide, alignedAt_zero _, alignedAt_fsize splitDoc.kids,
+    rfl, ?_⟩
+  have hsz : ¬ fsize splitDoc.kids < 6 := by decide
+  simp only [Tr.removeMark, planRemoveMark, Tr.init, if_neg hsz, split_plan, Tr.stepAll, Tr.step,
+    split_step1, Tr.addStep, split_step2]
+
+/-- `doc(p("abcdef"))` -/
+private def flatDoc : Node := .elem 0 [] [] [.elem 1 [] [] [.text [97, 98, 99, 100, 101, 102] []]]
+
+/-- **`f ≤ t` is needed**: with `from = 5 > to = 2` inside one text node the walk still visits that node
+    and plans `AddMarkStep(5, 2, u)`, which is refused (code: `TransformError: Replaced range ends before it
+    starts`) -/
+theorem total_needs_order :
+    C01.Valid spanS flatDoc ∧ fnorm flatDoc.kids = true ∧ pairClosedKids flatDoc.kids = true ∧
+    5 ≤ fsize flatDoc.kids ∧
+    ¬ ∃ tr', (Tr.init flatDoc).addMark spanS 5 2 u = .ok tr' := by
+  refine ⟨rfl, rfl, rfl, by decide, ?_⟩
+  have hplan : planAddMarkSteps spanS flatDoc 5 2 u = [.addMark 5 2 u] := by
+    simp [planAddMarkSteps, Schema.docVisits, nodesBetweenP_cons, nodesBetweenP, flatDoc, Node.kids,
+      Schema.tyOf, Node.tyOr, fsize, Node.size, addMarkVisit, Schema.nodeInline, Schema.nodeType, spanS,
+      Mark.isInSet, Node.marks, u, addMarkExtend, AddSt.steps, NodeType.allowsMarkType]
+  have hstep : spanS.apply (.addMark 5 2 u) flatDoc = .error .valueError := by
+    simp [Schema.apply, flatDoc, Node.slice, Node.kids, sliceKids, inRange, fsize, Node.size]
+  have hsz : ¬ fsize flatDoc.kids < 2 := by decide
+  simp only [Tr.addMark, planAddMark, Tr.init, if_neg hsz, hplan, Tr.stepAll, Tr.step, hstep]
+  simp
+
+/-- **`t ≤ size` is needed**: beyond the document `nodes_between` ends in an `IndexError` -/
+theorem total_needs_range : (Tr.init flatDoc).addMark spanS 0 9 u = .error .internal := by
+  have hsz : fsize flatDoc.kids < 9 := by decide
+  simp [Tr.addMark, planAddMark, Tr.init, hsz]
+end Necessity
 
 end PM.C13
